@@ -10,8 +10,12 @@ let ctable comp l m =
     List.iter (fun lh -> List.iter (fun mh -> put_res put_c (comp fops (zi i) (zi l) (zi m) (zi lh) (zi mh))) [m - 1; m; m + 1]) [l - 1; l + 1]
   done
 
-let handler r =
+let rec handler r =
   match word r with
+  (* fe <mode> <case>: the caller's rounding direction; the model's float instance always rounds to nearest (compared for mode 0 only) *)
+  | "fe" -> let _ = integer r in handler r
+  (* a history of scalar-harmonic requests: boost's Y_lm is a function argument of the model, nothing to compute here *)
+  | "yhist" -> put_w "-"
   | "sign" -> let x = num r in put_i (int_of_z (g_Sign fops x))
   | "sign2" -> let x = num r in let y = num r in put_f (g_Sign2 fops x y)
   | "step" -> let x = num r in put_f (g_StepFunction fops x)
@@ -31,6 +35,11 @@ let handler r =
       put_res (fun m -> put_i (List.length m); List.iter put_fl m) (round_table fops t (zi d))
   | "dawson" -> let x = num r in put_f (dawson fops x); put_f (dawson fops (-. x))
   | "erfi" -> let x = num r in put_f (erfi fops Float.pi x); put_f (erfi fops Float.pi (-. x))
+  | "spechist" -> let n = integer r in
+      (* a history of Dawson_Integral (0) / Erfi (1) requests in one process: the static table is threaded through as explicit state *)
+      let rec reqs k = if k = 0 then [] else let kind = integer r in let x = num r in (kind = 1, x) :: reqs (k - 1) in
+      let qs = reqs n in
+      let (_, ys) = special_run fops Float.pi (daw_table0 fops) qs in List.iter put_f ys
   | "inverf" -> let p = num r in put_res put_f (inv_erf_lib fops p)
   | "ycomp" -> let c = integer r in let l = integer r in let m = integer r in let lh = integer r in let mh = integer r in
       put_res put_c (g_VSH_Y_Component fops (zi c) (zi l) (zi m) (zi lh) (zi mh))
